@@ -781,7 +781,7 @@ func (up4 *UP4) removeGTPTunnelPeer(far far) {
 
 // releaseStaleGTPTunnelPeers drops the references that an updated FAR still holds to GTP tunnel peers
 // other than the one denoted by its current tunnel parameters, and removes tunnel peers left unused.
-func (up4 *UP4) releaseStaleGTPTunnelPeers(far far) {
+func (up4 *UP4) releaseStaleGTPTunnelPeers(far far) error {
 	up4.tunnelPeerMu.Lock()
 	defer up4.tunnelPeerMu.Unlock()
 
@@ -815,10 +815,16 @@ func (up4 *UP4) releaseStaleGTPTunnelPeers(far far) {
 
 		if err := up4.p4client.ApplyTableEntries(p4.Update_DELETE, gtpTunnelPeerEntry); err != nil {
 			staleLog.Errorln("failed to remove GTP tunnel peer")
+			// the entry is still installed: keep its ID and the reference, and report the failed write
+			tnlPeer.usedBy.Add(reference)
+
+			return err
 		}
 
 		up4.unsafeReleaseAllocatedGTPTunnelPeer(tunnelParameters)
 	}
+
+	return nil
 }
 
 // Returns error if we reach maximum supported Application IDs.
@@ -1504,7 +1510,9 @@ func (up4 *UP4) sendUpdate(all PacketForwardingRules, updated PacketForwardingRu
 
 	// no entry refers to the tunnel peers that the updated FARs used before anymore
 	for _, f := range updated.fars {
-		up4.releaseStaleGTPTunnelPeers(f)
+		if err := up4.releaseStaleGTPTunnelPeers(f); err != nil {
+			return err
+		}
 	}
 
 	return nil
